@@ -119,36 +119,6 @@ theorem ext_rcode_rewrite (ttl rc : Nat) (hrc : rc ≤ 4095) :
 
 /-! ### the packer -/
 
-theorem preflight_ok {β ν δ : Type} (lib : Lib β ν δ) (m : Msg ν) (heap : Heap β) (opt : Option Nat)
-    (h : preflight lib m heap = .ok opt) :
-    0 ≤ m.hdr.rcode ∧ m.hdr.rcode ≤ 0xFFF ∧ selectOPT heap m.extra = (opt, true) ∧
-    ¬ (opt.isNone ∧ m.hdr.rcode > 0xF) ∧ msgLen lib heap m ≤ packBufferSize ∧
-    (∀ s ∈ m.records, ∃ p, s = some p ∧ lib.adm (heap p) = true) := by
-  unfold preflight at h
-  split at h
-  · cases h
-  · rename_i hr
-    split at h
-    · cases h
-    · rename_i hadm
-      split at h
-      · cases h
-      · rename_i o hsel
-        split at h
-        · cases h
-        · rename_i hext
-          split at h
-          · cases h
-          · rename_i hlen
-            cases h
-            refine ⟨by omega, by omega, hsel, hext, by omega, ?_⟩
-            intro s hs
-            simp only [Bool.not_eq_true', Bool.not_eq_false] at hadm
-            have := (List.all_eq_true.mp (by simpa using hadm)) s hs
-            cases s with
-            | none => simp at this
-            | some p => exact ⟨p, rfl, this⟩
-
 /-- **Decline before output.**  Every `handled = false` return of `TryPack`
 — rcode out of range, a nil / foreign record, an OPT shape the library would
 panic on, an extended rcode without OPT, a message beyond the pooled buffer,
@@ -206,10 +176,9 @@ evolution hence the same compression choices).
 large as the pooled one. -/
 theorem handled_eq_library {β ν δ : Type} (lib : Lib β ν δ) (hm : Mono lib) (m : Msg ν) (heap : Heap β)
     (st : PState β δ) (hst : Clean lib st)
-    (hroom : libPack lib m heap = libPackWith lib m heap (max (libBufLen lib m heap) packBufferSize))
+    (hroom : (libPack lib m heap).1 = (libPackWith lib m heap (max (libBufLen lib m heap) packBufferSize)).1)
     (h : (tryPack lib m heap st).handled = true) :
-    ∃ s, (tryPack lib m heap st).consumed = some s ∧
-      libPack lib m heap = (.ok s.data, libHeap heap m.extra m.hdr.rcode.toNat) := by
+    ∃ s, (tryPack lib m heap st).consumed = some s ∧ (libPack lib m heap).1 = .ok s.data := by
   obtain ⟨_, _, _, hcomp, hN⟩ := hst
   cases hp : preflight lib m heap with
   | error e => rw [tryPack_decline lib m heap st e hp] at h; cases h
@@ -257,12 +226,12 @@ theorem handled_eq_library {β ν δ : Type} (lib : Lib β ν δ) (hm : Mono lib
             intro hgt; exact hext ⟨rfl, hgt⟩
           have hlib : libHeap heap m.extra m.hdr.rcode.toNat = heap := by
             simp only [libHeap, hedns]
-          rw [hlib] at hr' ⊢
+          rw [hlib] at hr'
           simp only [this, if_false, h12, hq', hr']
         | some p =>
           have hlib : libHeap heap m.extra m.hdr.rcode.toNat = libSetExt heap p m.hdr.rcode.toNat := by
             simp only [libHeap, hedns]
-          rw [hlib] at hr' ⊢
+          rw [hlib] at hr'
           simp only [h12, if_false, hq', hr']
 
 /-- **Buffer non-interference.**  What `TryPack` decides and what `consume`
@@ -365,5 +334,183 @@ theorem pool_reuse_clean {β ν δ : Type} (lib : Lib β ν δ) (ops : List (Poo
         rcases hs with rfl | hs
         · exact tryPack_preserves_clean lib _ _ _ hfresh
         · exact h s hs
+
+/-! ### the fallback and `PackClone` -/
+
+/-- **The immutable library fallback is the library.**  For every message —
+admissible or not, with or without OPT, whatever rcode — `libraryPackImmutable`
+returns exactly the outcome (bytes, error or panic) of `dns.Msg.Pack` on the
+original message: replacing every alias of the selected OPT, in every section,
+by one private copy changes nothing the library's encoder can see.  `fresh` is
+the address of that copy; it only has to differ from the message's records. -/
+theorem fallback_eq_library {β ν δ : Type} (lib : Lib β ν δ) (m : Msg ν) (heap : Heap β) (fresh : Nat)
+    (hfresh : ∀ s ∈ m.records, s ≠ some fresh) :
+    (libraryPackImmutable lib m heap fresh).1 = (libPack lib m heap).1 := by
+  unfold libraryPackImmutable
+  split
+  · rfl
+  · split
+    · rfl
+    · split
+      · rename_i p hsel
+        exact libPack_clone lib m heap p fresh hsel hfresh
+      · rfl
+
+/-- … and on a message built from library records (in-range rcode, every record
+admissible, an OPT shape the library does not panic on) it writes into nothing
+but its own copy: every record of the caller keeps every field. -/
+theorem fallback_leaves_message {β ν δ : Type} (lib : Lib β ν δ) (m : Msg ν) (heap : Heap β) (fresh : Nat)
+    (hfresh : ∀ s ∈ m.records, s ≠ some fresh)
+    (hr : 0 ≤ m.hdr.rcode ∧ m.hdr.rcode ≤ 0xFFF) (hadm : m.records.all (admSlot lib heap) = true)
+    (hsafe : (selectOPT heap m.extra).2 = true) :
+    ∀ q, q ≠ fresh → (libraryPackImmutable lib m heap fresh).2 q = heap q := by
+  intro q hq
+  have hex : ∀ s ∈ m.extra, s ≠ some fresh := fun s hs => hfresh s (by simp [Msg.records, hs])
+  unfold libraryPackImmutable
+  have h1 : ¬ (m.hdr.rcode < 0 ∨ m.hdr.rcode > 0xFFF) := by omega
+  simp only [h1, if_false, hadm, Bool.not_true, Bool.false_eq_true]
+  cases hsel : selectOPT heap m.extra with
+  | mk opt safe =>
+    rw [hsel] at hsafe
+    simp only at hsafe
+    subst hsafe
+    cases opt with
+    | some p =>
+      simp only
+      have hA := isEdns0_clone m heap p fresh hsel hex
+      show (libPack lib (cloneMsg m p fresh) (heap.set fresh (heap p))).2 q = heap q
+      unfold libPack
+      rcases libPackWith_heap lib (cloneMsg m p fresh) (heap.set fresh (heap p))
+          (libBufLen lib (cloneMsg m p fresh) (heap.set fresh (heap p))) with h | ⟨p', hp', h⟩
+      · rw [h]; simp [Heap.set, hq]
+      · rw [hA] at hp'
+        simp only [Option.some.injEq] at hp'
+        subst hp'
+        rw [h]; simp [libSetExt, Heap.set, hq]
+    | none =>
+      simp only
+      have hB : isEdns0 heap m.extra = some none := by
+        rw [opt_selection_eq_isEdns0, hsel]; rfl
+      unfold libPack
+      rcases libPackWith_heap lib m heap (libBufLen lib m heap) with h | ⟨p', hp', _⟩
+      · rw [h]
+      · rw [hB] at hp'; cases hp'
+
+/-- **`PackClone` always returns what the library returns** — the bytes kept for
+a cache entry are the same whether the pooled packer handled the message or
+declined it (same hypotheses as `handled_eq_library`) — and the pooled state
+goes back clean either way. -/
+theorem packClone_eq_library {β ν δ : Type} (lib : Lib β ν δ) (hm : Mono lib) (m : Msg ν) (heap : Heap β)
+    (st : PState β δ) (fresh : Nat) (hst : Clean lib st)
+    (hroom : (libPack lib m heap).1 = (libPackWith lib m heap (max (libBufLen lib m heap) packBufferSize)).1)
+    (hfresh : ∀ s ∈ m.records, s ≠ some fresh) :
+    (packClone lib m heap st fresh).1 = (libPack lib m heap).1 ∧ Clean lib (packClone lib m heap st fresh).2.2 := by
+  unfold packClone
+  simp only
+  cases hh : (tryPack lib m heap st).handled with
+  | true =>
+    obtain ⟨s, hs, hlib⟩ := handled_eq_library lib hm m heap st hst hroom hh
+    simp only [if_true, hs, hlib]
+    exact ⟨trivial, tryPack_preserves_clean lib m heap st hst⟩
+  | false =>
+    simp only [Bool.false_eq_true, if_false]
+    rw [message_unchanged lib m heap st hst.2.2.2.2]
+    exact ⟨fallback_eq_library lib m heap fresh hfresh, tryPack_preserves_clean lib m heap st hst⟩
+
+/-! ### non-vacuity: a concrete instance on which every hypothesis holds -/
+
+/-- a toy instance of the primitives: a record is 11 header bytes + `rest`
+rdata bytes whose content shows the top TTL byte (so the extended rcode is
+visible in the output); the dictionary counts the names it has seen. -/
+def toyLib : Lib Nat Nat Nat where
+  adm := fun o => decide (o.rest < 1000)
+  packRR := fun o L off d =>
+    if off + 11 + o.rest ≤ L then .ok (List.replicate (11 + o.rest) (UInt8.ofNat (o.hdr.ttl / 2 ^ 24))) (d + 1) o.rest
+    else .fail d
+  packName := fun n L off d => if off + n ≤ L then .ok (List.replicate n 7) (d + 1) 0 else .fail d
+  rrLen := fun o => 11 + o.rest
+  qLen := fun q => q.name + 4
+  nilDict := 0
+  emptyDict := 0
+  dictLen := id
+
+theorem toy_mono : Mono toyLib := by
+  constructor
+  · intro o L L' off d bs d' r hL h
+    simp only [toyLib] at h ⊢
+    split at h
+    · rw [if_pos (by omega)]; exact h
+    · cases h
+  · intro n L L' off d bs d' r hL h
+    simp only [toyLib] at h ⊢
+    split at h
+    · rw [if_pos (by omega)]; exact h
+    · cases h
+
+def toyHeap : Heap Nat := fun p =>
+  if p = 2 then { isOPT := true, hdr := { rrtype := 41, ttl := 0x8000, rdlength := 0 }, rest := 0 }
+  else if p = 3 then { isOPT := true, hdr := { rrtype := 41, ttl := 0xFF008000, rdlength := 7 }, rest := 4 }
+  else if p = 9 then { isOPT := false, hdr := { rrtype := 41, ttl := 0, rdlength := 0 }, rest := 4 }
+  else { isOPT := false, hdr := { rrtype := 1, ttl := 300, rdlength := 0 }, rest := 4 }
+
+/-- extended rcode 0x123, two different OPTs in Extra, the selected one also in Answer. -/
+def toyMsg : Msg Nat :=
+  { hdr := { id := 0xBEEF, response := true, recursionDesired := true, rcode := 0x123 }, compress := true,
+    question := [{ name := 13, qtype := 1, qclass := 1 }],
+    answer := [some 1, some 3], ns := [], extra := [some 2, some 1, some 3, some 4] }
+
+def toySt : PState Nat Nat := { buf := List.replicate packBufferSize 0xA5 }
+
+theorem toy_clean : Clean toyLib toySt := ⟨rfl, rfl, rfl, Or.inl rfl, by simp [toySt]⟩
+
+theorem toy_preflight : preflight toyLib toyMsg toyHeap = .ok (some 3) := by rfl
+
+/-- the packer handles it (hypothesis `h` of `handled_eq_library` is satisfiable) … -/
+theorem toy_handled : (tryPack toyLib toyMsg toyHeap toySt).handled = true := by
+  obtain ⟨_, _, _, _, _, _, _, hsome⟩ :=
+    tryPack_ok toyLib toyMsg toyHeap toySt (some 3) toy_preflight toy_clean.2.2.2.2
+  cases hpp : purePack toyLib packBufferSize toyMsg toyHeap (some 3) (dictFor toyLib toyMsg toySt) with
+  | none => exact absurd hpp (by decide)
+  | some r => exact (hsome r.1 r.2 hpp).1
+
+/-- … and so is `hroom`: the theorem applies, the library returns the very bytes. -/
+example : ∃ s, (tryPack toyLib toyMsg toyHeap toySt).consumed = some s ∧
+    (libPack toyLib toyMsg toyHeap).1 = .ok s.data :=
+  handled_eq_library toyLib toy_mono toyMsg toyHeap toySt toy_clean (by decide) toy_handled
+
+-- and the library did write into the caller's OPT (pointer 3) where the pooled path did not
+example : ((libPack toyLib toyMsg toyHeap).2 3).hdr.ttl = 0x12008000 ∧
+    ((tryPack toyLib toyMsg toyHeap toySt).heap 3).hdr.ttl = 0xFF008000 := by
+  refine ⟨by decide, ?_⟩
+  rw [message_unchanged toyLib toyMsg toyHeap toySt toy_clean.2.2.2.2]; rfl
+
+-- PackClone on the same message, and on one the pooled packer declines (too big): both are the library's outcome
+example : (packClone toyLib toyMsg toyHeap toySt 77).1 = (libPack toyLib toyMsg toyHeap).1 :=
+  (packClone_eq_library toyLib toy_mono toyMsg toyHeap toySt 77 toy_clean (by decide) (by decide)).1
+example : (libraryPackImmutable toyLib { toyMsg with ns := [some 5000] } toyHeap 77).1 =
+    (libPack toyLib { toyMsg with ns := [some 5000] } toyHeap).1 :=
+  fallback_eq_library toyLib _ toyHeap 77 (by decide)
+
+-- the last of several OPTs is the one selected, a later ordinary record does not matter
+example : selectOPT toyHeap toyMsg.extra = (some 3, true) :=
+  opt_selection_last toyHeap [some 2, some 1] [some 4] 3 rfl rfl (by simp [toyHeap, typeOPT])
+-- an OPT-typed header on something that is not an OPT: both refuse
+example : selectOPT toyHeap [some 2, some 9] = (none, false) ∧ isEdns0 toyHeap [some 2, some 9] = none := by decide
+-- a nil record after the OPT: both refuse
+example : selectOPT toyHeap [some 2, none] = (none, false) ∧ isEdns0 toyHeap [some 2, none] = none := by decide
+
+-- a decline that happens late (a record that does not fit) and one that happens early (nil record)
+example : preflight toyLib { toyMsg with ns := [none] } toyHeap = .error .inadmissible := by rfl
+example : preflight toyLib { toyMsg with extra := [some 1] } toyHeap = .error .extNoOpt := by rfl
+example : preflight toyLib { toyMsg with extra := [some 3, some 9] } toyHeap = .error .unsafeOpt := by rfl
+example : preflight toyLib { toyMsg with hdr := { rcode := 4096 } } toyHeap = .error .rcodeRange := by rfl
+
+-- the rewrite on a TTL with stale extended bits and DO set
+example : extTtl 0xFF008000 0x123 = 0x12008000 := by decide
+example : msgBits toyMsg.hdr = 0x8103 := by decide
+
+-- a dirty state is cleaned by release; a big dictionary is dropped
+example : (release toyLib { toySt with compression := some 65, opt := some (toyHeap 3), rrRef := some .stateOpt }).compression = none := by decide
+example : (release toyLib { toySt with compression := some 64 }).compression = some 0 := by decide
 
 end SdnsVerif.Props.C15
